@@ -17,6 +17,8 @@ MODES = {
     "diff-highlight": ["--no-gitconfig", "--diff-highlight", "--width", "100"],
     "diff-so-fancy+navigate": ["--no-gitconfig", "--diff-so-fancy", "--navigate", "--width", "100"],
     "raw-headers": ["--no-gitconfig", "--file-style", "raw", "--hunk-header-style", "raw", "--width", "100"],
+    # a lowered maximum line length: hunk headers (coloured or not) are exempt, long code lines are cut alike
+    "rs+maxlen100": gitskin.RS_ARGS + ["--max-line-length", "100"],
 }
 
 MOVED = ["1;35", "1;36", "1;34", "1;33", "2;35", "3;36", "38;5;208", "38;2;10;20;30;48;5;17", "1;4;9;38;5;99", "7;35",
@@ -64,14 +66,25 @@ def run(tier):
     for i, h in enumerate(hists):
         for m in (list(MODES) if tier == "thorough" else [list(MODES)[i % len(MODES)], list(MODES)[(i + 3) % len(MODES)]]):
             jobs.append((h, m, 1 + (i % 4)))
+        if i % 6 == 0:
+            jobs.append((h, list(MODES)[(i // 6) % len(MODES)], 5))
     intern = gitskin.Interner()
 
     def ws_payload(k, c):
         return f"tokZ{k}Z w{k % 3}" + ("  " if k % 5 == 0 else "") + ("\t" if k % 7 == 0 else "")
 
+    def bad_utf8_payload(k, c):
+        # (a lone surrogate stands for a byte that is not valid UTF-8: Latin-1 text in a diff)
+        return f"tokZ{k}Z caf\udce9 w{k % 3}" if k % 2 == 0 else f"tokZ{k}Z w{k % 3}"
+    enc = lambda t: t.encode("utf-8", "surrogateescape")
+
     def one(job):
         h, m, variant = job
-        data, texts = gitskin.concretise(h, payload=ws_payload)
+        if variant == 5:      # hunk lines that are not valid UTF-8
+            texts = gitskin.concretise_texts(h, payload=bad_utf8_payload)
+            data = b"".join(enc(t) + b"\n" for t in texts)
+        else:
+            data, texts = gitskin.concretise(h, payload=ws_payload, skin={"frag": "long"} if m == "rs+maxlen100" else None)
         ctexts = gitskin.colourise(h, texts, variant)
         if variant == 3 and m != "color-only":
             # files with CRLF line endings: git puts the reset between CR and LF; the plain input has plain CRLF
@@ -79,7 +92,7 @@ def run(tier):
             ctexts = [(t[:-len(R)] + "\r" + R2) if t.endswith(R) else t + "\r"
                       for t in ctexts for R in ["\x1b[0m"] for R2 in [["\x1b[0m", "\x1b[m", "\x1b[0m\x1b[m"][len(t) % 3]]]
             data = "".join(t + "\n" for t in texts).encode()
-        cdata = "".join(t + "\n" for t in ctexts).encode()
+        cdata = b"".join(enc(t) + b"\n" for t in ctexts)
         return texts, ctexts, core.run_delta(MODES[m], data), core.run_delta(MODES[m], cdata)
 
     res = core.pmap(one, jobs)
@@ -89,15 +102,17 @@ def run(tier):
         bp, bc = rp.out.split(b"\n"), rc_.out.split(b"\n")
         rows_p = [intern(b) for b in bp]
         rows_c = [intern(b) for b in bc]
-        kx, rx = passthrough(bp, [stream.normalise_line(t.encode()) for t in texts], intern)
-        ky, ry = passthrough(bc, [stream.normalise_line(t.encode()) for t in ctexts], intern)
+        kx, rx = passthrough(bp, [stream.normalise_line(t.encode("utf-8", "surrogateescape")) for t in texts], intern)
+        ky, ry = passthrough(bc, [stream.normalise_line(t.encode("utf-8", "surrogateescape")) for t in ctexts], intern)
         events.append({"run": i, "kind": "equalp", "x": rows_p, "y": rows_c, "kx": kx, "rx": rx, "ky": ky, "ry": ry,
                        "z": [], "ex": []})
-        if m == "rs":   # "identical" must not mean "identically wrong": the coloured run is also judged by Obs_Stream
-            ev, rows = stream.run_event(len(sevents), h, texts, rc_, {"keep": False, "tabs": 8, "colorOnly": False,
-                                                                      "buf": 32, "hhFile": True, "rel": False}, skin={})
+        if m == "rs" and variant != 5:   # "identical" must not mean "identically wrong": the coloured run is also judged by Obs_Stream
+            # (a CR at the end of a line is dropped by delta - permitted - so it is not part of the text expected)
+            ev, rows = stream.run_event(len(sevents), h, [t[:-1] if t.endswith("\r") else t for t in texts], rc_, {"keep": False, "tabs": 8, "colorOnly": False,
+                                                                      "buf": 32, "hhFile": True, "rel": False}, intern=intern, skin={})
+            # a line that is passed through carries the bytes (colours included) of the coloured input
             for ln, t in zip(ev["lines"], ctexts):
-                ln["bid"] = ev["lines"][0]["bid"] if False else ln["bid"]
+                ln["bid"] = intern(stream.normalise_line(t.encode("utf-8", "surrogateescape")))
             sevents.append(ev)
             smeta.append(i)
     # moved lines: one hunk per rendition, changed lines in non-default colours
